@@ -143,29 +143,34 @@ class LoopGen:
         return [f"{ind}if ({cond}) then", f"{ind}  {s} = 1", f"{ind}endif", f"{ind}if ({cond}) then",
                 f"{ind}  c(i) = {s}", f"{ind}endif"]
 
-    def dside_sub(self, with_d):
-        """`c*i + e` where e uses the names d_i, d1_i, d2_i with coefficients +-1, +-2 (or not at all)"""
+    def dside_sub(self, with_d, base):
+        """`base + e` where e uses the names d_i, d1_i, d2_i with coefficients +-1, +-2 (or not at all)"""
         r = self.rng
-        base = r.choice(["i", "i", "i", "2*i", "i+1", "-i"])
         if not with_d:
             return base
         out = base
-        for nm in r.sample(["d_i", "d1_i", "d2_i"], r.choice([1, 1, 1, 2])):
-            c = r.choice([1, -1, 2, -2])
+        x = r.random()
+        names = ["d_i"] if x < 0.55 else ["d1_i"] if x < 0.7 else r.sample(["d_i", "d1_i", "d2_i"], 2)
+        for nm in names:
+            c = r.choice([1, -1, -1, 2, -2])
             out += ("+" if c > 0 else "-") + (nm if abs(c) == 1 else f"{abs(c)}*{nm}")
         return out
 
     def dside_stmt(self, ind):
-        """array update whose write / read subscripts use a d_<loopvar> name on ONE side only, or on both"""
+        """array update whose write / read subscripts use a d_<loopvar> name on ONE side only, or on both; mostly
+        the same `c*i + const` part on both sides, so that the only difference is the d-name term"""
         r = self.rng
         arr = r.choice(["a", "a", "b"])
-        side = r.choice(["write", "write", "read", "read", "both", "bothsame"])
+        side = r.choice(["write", "write", "write", "read", "read", "both", "bothsame"])
+        bases = ["i", "i", "i", "2*i", "i+1", "-i"]
+        bw = r.choice(bases)
+        br = bw if r.random() < 0.75 else r.choice(bases)
         if side == "bothsame":
-            w = self.dside_sub(True)
+            w = self.dside_sub(True, bw)
             rd = w
         else:
-            w = self.dside_sub(side in ("write", "both"))
-            rd = self.dside_sub(side in ("read", "both"))
+            w = self.dside_sub(side in ("write", "both"), bw)
+            rd = self.dside_sub(side in ("read", "both"), br)
         rhs = f"{arr}({rd}) + 1"
         if r.random() < 0.3:
             rhs += f" + {r.choice(['c(i)', 'n', 'd_i'])}"
